@@ -210,7 +210,18 @@ func (c Cfg) options(in Input) ([]autog.Option, map[string]graph.Size) {
 	case 1, 4:
 		o = append(o, autog.WithNodeFixedSize(fixW*k, fixH*k))
 	}
-	if c.SZ >= 2 {
+	if c.SZ == 7 {
+		// size determined by the node's NAME (C09: a node keeps its size whether laid out alone or in a union)
+		sizes = map[string]graph.Size{}
+		for i, n := 0, in.N(); i < n; i++ {
+			h := 0
+			for _, b := range []byte(in.Name(i)) {
+				h = h*7 + int(b)
+			}
+			sizes[in.Name(i)] = graph.Size{W: tabW[h%len(tabW)] * k, H: tabH[(h/3)%len(tabH)] * k}
+		}
+		o = append(o, autog.WithNodeSize(sizes))
+	} else if c.SZ >= 2 {
 		sizes = map[string]graph.Size{}
 		n := in.N()
 		for i := 0; i < n; i++ {
